@@ -30,8 +30,10 @@ for d in sorted(os.listdir(root)):
     by = []
     for k, v in sorted(res.items()):
         if v["exit"] == 1 and v["violation_lines"]:
-            sig = v["sigs"][0].split(" occurrences")[0].replace("sig=", "") if v["sigs"] else "?"
-            by.append("%s (%.0f s): `%s`" % (k.replace(":", " "), v["wall_s"], short(sig, 70)))
+            sigs = [x.split(" occurrences")[0].replace("sig=", "") for x in v["sigs"]] or ["?"]
+            # quick: the first signature; thorough: up to three (the sanitizer stages add their own)
+            shown = sigs[:1] if k.endswith("quick") else sigs[:3]
+            by.append("%s (%.0f s): %s" % (k.replace(":", " "), v["wall_s"], ", ".join("`%s`" % short(x, 70) for x in shown)))
     if by:
         caught += 1
     else:
